@@ -95,18 +95,14 @@ Section Flat.
     assert (Hrest : XLQ ([] ++ [] ++ [(r, e)] ++ []) (st x2)
               (liftR x2 (op_remove (st x2) r d e) (fun x3 =>
                  let cur := get_str (st x3) e str_NAME in
-                 let newname : option (option str) :=
+                 let newname : option str :=
                    match nm with
-                   | None => None
-                   | Some [] => Some cur
-                   | Some a => match cur with Some nm0 => Some (Some (a ++ str_slash ++ nm0)) | None => None end
+                   | None => cur
+                   | Some a => Some (a ++ str_slash ++ name_in_path (st x3) e)
                    end in
-                 match newname with
-                 | None => (x3, Some XAttr)
-                 | Some nn => liftR x3 (op_set_name (st x3) e nn)
-                                 (fun x4 => liftR x4 (op_add (st x4) r topd e None) (fun x5 => (x5, None))) end))).
+                 liftR x3 (op_set_name (st x3) e newname)
+                   (fun x4 => liftR x4 (op_add (st x4) r topd e None) (fun x5 => (x5, None)))))).
     { apply xlq_liftR; [apply lq_op_remove|]. intro x3. cbv zeta.
-      destruct (match nm with None => None | Some [] => _ | Some (_ :: _) => _ end) as [nn|]; [|intro H; discriminate].
       apply xlq_liftR; [apply lq_struct, se_op_set_name|]. intro x4. apply xlq_liftR; [apply lq_op_add|intro; apply xlq_ret]. }
     pose proof (lq_trans _ _ _ _ _ L2 (Hrest Hok)) as H. apply (lq_weaken _ _ _ _ (fun e0 He => He) H) || exact H.
   Qed.
@@ -231,7 +227,7 @@ Section Flat.
           -- right. right. exact Hrm.
         * destruct Hnew as [Hnew|[]]. injection Hnew as _ ->. right. left. exists d. split; assumption.
       + (* hierarchical: its contents come up, it is scheduled for removal *)
-        set (iname := get_str (st x1) inst str_NAME) in *.
+        set (iname := Some (name_in_path (st x1) inst)) in *.
         pose proof (xlq_bring_cables iname (kids (st x1) RCables d) x1) as L2.
         pose proof (xp_xfold UF (fun x c => bring_to_top x c iname topd) (kids (st x1) RCables d)
                       (fun x0 a H0 => xpU x0 a iname topd H0) x1 UF1) as U2.
@@ -297,8 +293,8 @@ Theorem flatten_leaves fuel x n x' t topd :
   forall c, In c (kids (st x') RChildren topd) -> Leafy (st x') c.
 Proof.
   intros U Ht Hr E. unfold flatten in E. rewrite Ht, Hr in E.
-  destruct (flat_loop fuel x topd (map (fun c => (c, Some [])) (kids (st x) RChildren topd)) []) as [[x1 [e|]] rem] eqn:El; [discriminate|].
-  assert (F0 : F1 topd (st x) (map (fun c => (c, Some [])) (kids (st x) RChildren topd)) []).
+  destruct (flat_loop fuel x topd (map (fun c => (c, None)) (kids (st x) RChildren topd)) []) as [[x1 [e|]] rem] eqn:El; [discriminate|].
+  assert (F0 : F1 topd (st x) (map (fun c => (c, None)) (kids (st x) RChildren topd)) []).
   { intros c Hc. left. rewrite map_map. cbn. rewrite map_id. exact Hc. }
   destruct (flat_loop_leaves topd fuel x _ [] x1 rem U F0 El) as [U1 F].
   destruct (remove_fold topd rem x1 x' U1 E) as [Q H]. intros c Hc. destruct (H c Hc) as [Hc1 Hn].
